@@ -7,6 +7,13 @@ use proptest::prelude::*;
 use proptest::strategy::ValueTree;
 use proptest::test_runner::TestRunner;
 
+pub type Runner = TestRunner;
+
+/// deterministic runner for drawing single values outside a property run
+pub fn fixed_runner(seed: u8) -> TestRunner {
+    TestRunner::new_with_rng(proptest::test_runner::Config::default(), proptest::test_runner::TestRng::from_seed(proptest::test_runner::RngAlgorithm::ChaCha, &[seed; 32]))
+}
+
 pub fn draw<S: Strategy>(s: &S, runner: &mut TestRunner) -> S::Value {
     s.new_tree(runner).expect("strategy").current()
 }
